@@ -32,15 +32,18 @@ TRANSPARENT = (
     'alloc::boxed::Box::new', 'alloc::sync::Arc::new', 'alloc::boxed::Box::pin', 'core::convert::TryInto::try_into',
     'core::convert::TryFrom::try_from', 'alloc::borrow::ToOwned::to_owned', 'alloc::slice::to_vec',
     'core::option::Option::cloned', 'core::option::Option::copied', 'core::result::Result::as_ref',
-    'core::ops::index::Index::index', 'core::ops::index::IndexMut::index_mut', 'core::slice::iter',
+    'core::slice::iter',
     'core::iter::traits::iterator::Iterator::enumerate', 'core::iter::traits::iterator::Iterator::next',
-    'core::slice::get', 'core::slice::as_ptr', 'core::clone::impls::clone', 'core::hint::must_use',
-    'core::slice::index::index', 'core::array::index', 'core::array::index_mut', 'core::iter::range::next',
+    'core::slice::as_ptr', 'core::clone::impls::clone', 'core::hint::must_use',
+    'core::iter::range::next',
     'core::slice::iter::into_iter', 'core::future::future::Future::poll',
 )
 
 
 TRANSPARENT_SET = frozenset(TRANSPARENT)
+INDEXING = frozenset(['core::ops::index::Index::index', 'core::ops::index::IndexMut::index_mut', 'core::slice::index::index',
+                      'core::array::index', 'core::array::index_mut', 'core::slice::get', 'core::slice::get_mut',
+                      'core::slice::index::index_mut'])
 PAYLOAD_VARIANTS = ('Ready', 'Some', 'Ok', 'Continue')
 
 
@@ -212,6 +215,8 @@ class Flow:
         if cal is None:
             return ('call', '<indirect>', [self.expr(a, depth) for a in t['args']], b)
         fn = strip_generics(t.get('fn', cal))
+        if fn in INDEXING and len(t['args']) == 2:
+            return ('index', self.expr(t['args'][0], depth), self.expr(t['args'][1], depth))
         if (fn in TRANSPARENT_SET or strip_generics(cal) in TRANSPARENT_SET) and t['args']:
             # (polling an awaited future "is" the future: the Ready payload is taken by a Downcast)
             return self.expr(t['args'][0], depth)
